@@ -7,4 +7,5 @@ import MW.Props.C06
 #print axioms MW.Props.C06.callbacks_leave_batches
 #print axioms MW.Props.C06.expected_immutable
 #print axioms MW.Props.C06.lifecycle_every_world_history
+#print axioms MW.Props.C06.received_only_by_staker_world
 #print axioms MW.Props.C06.messages_are_the_modelled_ones
